@@ -34,6 +34,7 @@ type scen struct {
 	PendRead   []bool   `json:"pending_read"`
 	Late       string   `json:"late,omitempty"` // "", "new" (from an unknown remote), "known" (from accepted conn 0's remote)
 	Batch      bool     `json:"batch"`
+	PendWrite  int      `json:"pending_write,omitempty"` // batch only: a write still sitting in the unflushed batch at Close; 1 = small, 2 = larger than a datagram can be (its flush fails)
 	Filter     bool     `json:"accept_filter,omitempty"` // an AcceptFilter that admits everything (user code running inside the read loop)
 	Strategy   string   `json:"strategy"`
 	Seed       int64    `json:"seed"`
@@ -113,6 +114,10 @@ func runOne(sc *scen, st sched.Strategy, settle bool, hit map[int]bool) (rs resu
 	lc := udp.ListenConfig{}
 	if sc.Batch {
 		lc.Batch = udp.BatchIOConfig{Enable: true, ReadBatchSize: 4, WriteBatchSize: 1, WriteBatchInterval: 2 * time.Millisecond}
+		if sc.PendWrite > 0 {
+			lc.Batch.WriteBatchSize = 16 // writes stay in the batch until it is full or the (long) interval passes: flushed by Close
+			lc.Batch.WriteBatchInterval = 60 * time.Millisecond
+		}
 	}
 	if sc.Filter {
 		lc.AcceptFilter = func([]byte) bool { return true }
@@ -173,6 +178,13 @@ func runOne(sc *scen, st sched.Strategy, settle bool, hit map[int]bool) (rs resu
 		}
 		ac.SetReadDeadline(time.Time{})
 		conns = append(conns, ac)
+	}
+	if sc.Batch && sc.PendWrite > 0 && len(conns) > 0 {
+		n := 100
+		if sc.PendWrite == 2 {
+			n = 70000
+		}
+		conns[0].Write(make([]byte, n)) // deferred: sits in the batch until Close flushes it (the flush of 70000 bytes fails)
 	}
 	for i := 0; i < sc.Unaccepted; i++ {
 		c := dial()
@@ -340,7 +352,7 @@ func runOne(sc *scen, st sched.Strategy, settle bool, hit map[int]bool) (rs resu
 		if _, err := c.Write(msg); err != nil {
 			return "udp:accepted-conn-dead", fmt.Sprintf("%s: write on an accepted, un-closed connection failed: %v (listener closed: %v)", name, err, lclosed)
 		}
-		if peer != nil {
+		if peer != nil && sc.PendWrite != 2 { // a batch that holds the oversize write fails as a whole when it is flushed: nothing can be said about its other datagrams
 			peer.SetReadDeadline(time.Now().Add(3 * time.Second))
 			buf := make([]byte, 64)
 			for {
@@ -509,6 +521,9 @@ func runOne(sc *scen, st sched.Strategy, settle bool, hit map[int]bool) (rs resu
 	}
 	if sc.Batch {
 		time.Sleep(3 * time.Millisecond) // batch ticker period
+		if sc.PendWrite > 0 {
+			time.Sleep(65 * time.Millisecond) // the batch writer goroutine notices the close at its next tick
+		}
 	}
 	left := udpGoroutines()
 	for k := 0; k < 50 && len(left) > 0; k++ {
@@ -563,6 +578,9 @@ func genScen(rng *rand.Rand) *scen {
 	sc.Late = []string{"", "", "new", "known"}[rng.Intn(4)]
 	sc.Batch = rng.Intn(5) == 0
 	sc.Filter = rng.Intn(3) == 0
+	if sc.Batch && sc.Accepted > 0 && rng.Intn(2) == 0 {
+		sc.PendWrite = 1 + rng.Intn(2)
+	}
 	switch rng.Intn(10) {
 	case 0, 1:
 		sc.Strategy = "random"
@@ -597,7 +615,7 @@ func main() {
 	flag.Parse()
 	_ = nshard
 	r := res.New("C12")
-	r.Rule = "scenarios with 0-3 accepted and 0-2 un-accepted connections on a real loopback listener; tasks: listener Close (once/twice), per-connection Close (once/twice), a pending Accept, pending Reads, a late datagram (known / new remote), batch I/O on/off, an accept filter that admits everything (user code inside the read loop) on/off; executed under the cooperative scheduler (yield points in udp/conn.go, udp/batchconn.go, packetio/buffer.go, deadline.go) with PCT d=2..4, random and DFS(preemption<=2) strategies; oracle after each schedule: no panic, nothing parked that a Close must release, every accepted un-closed connection (also one handed out by a racing Accept) still exchanges datagrams, port not re-bindable while anything is open, re-bindable and no goroutine of package udp left once everything is closed, second Close harmless; distinct = distinct schedules"
+	r.Rule = "scenarios with 0-3 accepted and 0-2 un-accepted connections on a real loopback listener; tasks: listener Close (once/twice), per-connection Close (once/twice), a pending Accept, pending Reads, a late datagram (known / new remote), batch I/O on/off (with a small or an oversize write still pending in the write batch at Close), an accept filter that admits everything (user code inside the read loop) on/off; executed under the cooperative scheduler (yield points in udp/conn.go, udp/batchconn.go, packetio/buffer.go, deadline.go) with PCT d=2..4, random and DFS(preemption<=2) strategies; oracle after each schedule: no panic, nothing parked that a Close must release, every accepted un-closed connection (also one handed out by a racing Accept) still exchanges datagrams, port not re-bindable while anything is open, re-bindable and no goroutine of package udp left once everything is closed, second Close harmless; distinct = distinct schedules"
 	r.Assumptions = []string{"loopback UDP delivers a datagram to an open socket within 3 s (used only for must-arrive probes on connections the property requires to be alive)", "goroutine-leak probe samples runtime.Stack until empty, at least 10 ms"}
 	hit := map[int]bool{}
 	seenKeys := map[string]int{}
